@@ -108,6 +108,9 @@ def mon(w):
     g = w.g
     for (tname, msg, site) in w.errors:
         w.flag("no-exception", "%s@%s" % (tname, site), "exception %s at %s: %s" % (tname, site, msg))
+    for (tname, msg, site) in w.__dict__.get("swallowed", ()):
+        if site.startswith("manager.py") and not any(e[0] == tname for e in w.errors):
+            w.flag("no-exception", "in-callback:%s@%s" % (tname, site), "%s raised inside a Deferred callback at %s: %s" % (tname, site, msg))
     if w.cfg["mode"] == "responsive" and g["disconnects"]:
         w.flag("never-drop-responsive", "dropped", "every ping was answered in under one interval, but the monitor disconnected at t=%r; pings %r" % (
             g["disconnects"], [(round(p[1], 3), None if p[2] is None else round(p[2], 3)) for p in g["pings"]]))
@@ -127,6 +130,12 @@ def mon(w):
                 t_last, w.now, (w.now - t_last) / I))
     # monitoring stops with the connection
     L = w.sides[0].manager
+    # ... and the dropped connection is replaced: once the transport has reported the loss and every eventual turn has run,
+    # the Leader must have let go of it (and asked for a new generation)
+    if L._connection is not None and L._connection.transport.closed and not any(s.reactor.due() for s in w.sides):
+        w.flag("replace-silent", "stuck-on-dead-connection:%s" % w.mstate(0),
+               "the connection in use (link %d) is closed and all turns have run, but the Leader's Manager still holds it in state %s: "
+               "no new generation was started" % (L._connection.transport.link.idx, w.mstate(0)))
     if L._connection is None and L._timer is not None:
         w.flag("monitor-lifecycle", "timer-without-connection", "no connection in use but the ping timer is still pending")
     if L._connection is not None and L._traffic is not None and L._timer is None:
